@@ -235,6 +235,15 @@ theorem response_error_carried (sr rn collectFails : Bool) (root : Stage) (hc : 
       have harg : f.arg = true := error_carried sr rn root s hr f (by rw [hfd]; simp) (by rw [hfb]; exact hfl)
       simp [runResponses, sendResponseCalls, hfd, Leaf.sendResponse, Leaf.init, harg]
 
+/-! ## the plan node hands the operator's outcome on -/
+
+/-- **plan_node_preserves_outcome.** `planNode.ExecuteWithStats` as it is hands the operator's
+outcome to the stage unchanged — ok, error or panic — whether or not the operator has statistics of
+its own: a failing trackable operator (seriesFiltering, metricAllSeries, dataLoad) fails its stage. -/
+theorem plan_node_preserves_outcome (trackable : Bool) (r : OpResult) :
+    planNodeExec true trackable r = r := by
+  cases r <;> cases trackable <;> rfl
+
 /-! ## Submit racing Stop (internal/concurrent/pool.go) -/
 
 /-- **reject_xor_execute.** `workerPool.Submit` as it is (no re-check of `Stopped()` after the send):
@@ -373,6 +382,10 @@ theorem two_responses_if_process_returns_error :
       (fun s => (terminalB s, runResponses ⟨true, true, false⟩ false false s, runResponses ⟨false, true, false⟩ false false s))
       = some (true, [true, true], [true]) := by decide
 
+/-- a plan node whose trackable branch returns `nil` (the seeded change c19-11) turns the error of a
+trackable operator into success — the stage, and with it the pipeline, reports no failure -/
+theorem trackable_error_dropped : planNodeExec false true .error = .ok := rfl
+
 /-- with a re-check of `Stopped()` after the send (the seeded change c19-7) a task whose Submit was
 past the first check when `Stop()` came is rejected by the re-check AND executed by the drain -/
 theorem rejected_and_executed_with_recheck :
@@ -411,6 +424,11 @@ theorem tie_pipelineExecuteStage :
 theorem tie_baseStageExecute : Generated.C19.baseStageExecuteSteps = baseStageExecuteOrder := by decide
 theorem tie_baseStageIsAsync : Generated.C19.baseStageIsAsyncSteps = baseStageIsAsyncOrder := by decide
 theorem tie_execTask : Generated.C19.execTaskSteps = execTaskOrder := by decide
+theorem tie_planNodeExecuteWithStats :
+    Generated.C19.planNodeExecuteWithStatsSteps = planNodeExecuteWithStatsOrder := by decide
+/-- every return site of `ExecuteWithStats` returns the operator's error (hypothesis
+`returnsOperatorError = true` of `plan_node_preserves_outcome`) -/
+theorem tie_planNodeReturnsOperatorError : Generated.C19.planNodeReturnsOperatorError = true := by decide
 theorem tie_submit : Generated.C19.submitSteps = submitOrder currentCfg.rejectNotifies := by decide
 theorem tie_reject : Generated.C19.rejectSteps = rejectOrder currentCfg.rejectNotifies := by decide
 /-- `Submit` does nothing after `p.tasks <- task` (hypothesis `recheck = false` of `reject_xor_execute`) -/
